@@ -15,6 +15,9 @@ checks = {
  "C12": ("model_checking", "explicit-state BFS over valid filesystem histories on real MemFs and DirFs (simunix) in lock-step with a reference model; traces replayed on the real kernel",
          "All valid histories up to depth 3 (quick) / 5 (thorough) return what the reference model returns on both implementations, directly and through the wrappers, with full read-back after every transition.",
          "simunix kernel model (validated per history on the real kernel); depth bound", "2 C12"),
+ "C13": ("model_checking", "crash-point x post-crash-image enumeration, single-fault and short-write enumeration on the real DirFs.AtomicCreate over simunix; all interleavings up to a preemption bound of creators + reader on DirFs and MemFs",
+         "Every prior state x leftover temp file x data size: all-or-nothing at every instant, in every post-crash image and after every single failing system call; flushed before visible; concurrent creators and a reader never observe or leave anything but one caller's complete data.",
+         "crash/fault model of simunix; system calls atomic; preemption bound", "2 C13"),
 }
 todo = {}
 man = {
